@@ -21,9 +21,12 @@ augment / deviation / leafref / grouping targets).  Errors inside the content (s
 not computed but *injected*: `ModSrc.faults` lists (stage, LY_ERR) pairs, and the step of that stage concerning that module
 fails with that code whenever it is reached — so quantifying over all sources quantifies over all failure points.  Failures the bookkeeping itself decides (unresolved import, unknown feature, unsatisfied if-feature, second implemented
 revision, namespace clash) are computed.  Nothing is idealised: `lys_set_features` flips flags in place before anything can
-fail (F4), the previous latest revision loses its flag for good (F130), `LYS_MOD_IMPORTED_REV` sticks (F132), the pending batch of
-an explicit-compile context is dropped as a whole (F131), recompilation issues fresh compiled modules (F24), and the feature
-iterator of the modules hash is carried across modules (F23).
+fail (F4), the pending batch of an explicit-compile context is dropped as a whole (F131), recompilation issues fresh compiled
+modules (F24).  Behaviour that a repair of the code changed is a parameter (`Cfg`, a field of the context; the hash has its two
+parameters as arguments): with `{}` the previous latest revision loses its flag for good (F130), `LYS_MOD_IMPORTED_REV` sticks
+(F132), a failed candidate for a dateless import stays in the context (F134), implementing a module / changing features does
+not count as a change (F133), augment targets implemented in the unres phase stay uncompiled (F137); `Cfg.code` is what the
+code does now (read from the sources on every run, `Generated/CtxFacts.lean`), and the driver starts every context with it.
 
 Core Lean only (linked into `lydrv`).
 -/
@@ -110,7 +113,23 @@ deriving DecidableEq, Repr, Inhabited
 
 def Mod.key (m : Mod) : MKey := (m.src.name, m.src.rev)
 
+/-- which of the repaired behaviours the code has; `{}` = none of them (the tree the findings were recorded on) -/
+structure Cfg where
+  restoreLatest : Bool := false       -- F130: `lys_unres_glob_revert` gives LYS_MOD_LATEST_REV back to the newest remaining revision
+  recomputeImported : Bool := false   -- F132: … and recomputes LYS_MOD_IMPORTED_REV from the imports that remain
+  loadPropagates : Bool := false      -- F134: `lys_parse_load_from_clb_or_file` returns the error of a module that failed after it was added
+  countsImplement : Bool := false     -- F133: `change_count++` when a module is implemented / features of an implemented module change
+  compilesTargets : Bool := false     -- F137: `lys_compile_expr_implement` compiles every module implemented together with the referenced one
+deriving DecidableEq, Repr, Inhabited
+
+/-- the code as it is now (`Generated/CtxFacts.lean` is written from the sources on every run) -/
+def Cfg.code : Cfg :=
+  { restoreLatest := Generated.CtxFacts.revertRestoresLatest, recomputeImported := Generated.CtxFacts.revertRecomputesImported,
+    loadPropagates := Generated.CtxFacts.loadPropagatesCreated, countsImplement := Generated.CtxFacts.implementCounts,
+    compilesTargets := Generated.CtxFacts.exprImplementCompilesAll }
+
 structure Ctx where
+  cfg : Cfg := {}
   mods : List Mod := []
   explicit : Bool := false            -- LY_CTX_EXPLICIT_COMPILE
   privParsed : Bool := false          -- LY_CTX_SET_PRIV_PARSED
@@ -148,6 +167,13 @@ def failS {α : Type} (e : Nat) : M α := fun s => (.error e, s)
 def attempt {α : Type} (x : M α) : M (Option α) := fun s => match x s with
   | (.ok a, s') => (.ok (some a), s')
   | (.error _, s') => (.ok none, s')
+
+/-- `lys_parse_load_from_clb_or_file`: the result of `lys_parse_in` is ignored — unless (`prop`: the repaired code, and there
+    is an older revision that would be used instead) the set of new modules grew, i.e. the module failed after it was added to
+    the context -/
+def attemptLoad {α : Type} (prop : Bool) (x : M α) : M (Option α) := fun s => match x s with
+  | (.ok a, s') => (.ok (some a), s')
+  | (.error e, s') => if prop && s.creating.length < s'.creating.length then (.error e, s') else (.ok none, s')
 
 def forEach {α : Type} : List α → (α → M Unit) → M Unit
   | [], _ => pure ()
@@ -192,6 +218,9 @@ def Ctx.upd (s : Ctx) (k : MKey) (f : Mod → Mod) : Ctx :=
   { s with mods := s.mods.map fun m => if m.key == k then f m else m }
 
 def updM (k : MKey) (f : Mod → Mod) : M Unit := modS fun s => s.upd k f
+
+/-- `n` increments of `change_count` -/
+def tick (n : Nat) (s : Ctx) : Ctx := { s with changeCount := s.changeCount + BitVec.ofNat 16 n, ticks := s.ticks + n }
 
 /-- the import callback of the harness: the exact revision, or the newest one of that name -/
 def repoFind (repo : List ModSrc) (name : Bytes) (rev : Option Bytes) : Option ModSrc :=
@@ -239,11 +268,12 @@ def setFeatsPrim (k : MKey) (arg : FeatArg) (s : Ctx) : Ctx :=
     | some (m', _) => m'
     | none => m
 
-/-- `lys_set_features` on an implemented module: the flags are flipped in place and the module is marked `to_compile` -/
+/-- `lys_set_features` on an implemented module: the flags are flipped in place and the module is marked `to_compile`
+    (this is called only when something changes; the repaired code counts it as a change of the context, F133) -/
 def setFeatsFlag (k : MKey) (arg : FeatArg) (s : Ctx) : Ctx :=
-  s.upd k fun m => match setFeatures m arg with
+  tick (if s.cfg.countsImplement then 1 else 0) (s.upd k fun m => match setFeatures m arg with
     | some (m', _) => { m' with toCompile := true }
-    | none => m
+    | none => m)
 
 /-- `lys_check_features`: an enabled feature whose (first) if-feature is false -/
 def Mod.featuresOk (m : Mod) : Bool :=
@@ -270,8 +300,6 @@ def Ctx.descOf (s : Ctx) (m : Mod) : Desc :=
           | none => none
           | some t => some (k.1, (t.feats.filter (·.on)).map (·.name)) }
   else { feats := [], augBy := [], devBy := [], grp := [] }
-
-def tick (n : Nat) (s : Ctx) : Ctx := { s with changeCount := s.changeCount + BitVec.ofNat 16 n, ticks := s.ticks + n }
 
 def installCompiled (k : MKey) (s : Ctx) : Ctx :=
   match s.find k with
@@ -410,7 +438,7 @@ def parseLoad : Nat → Bytes → Option Bytes → M MKey
        -- lys_parse_load_from_clb_or_file
        (if clbSkip modLatest then (pure none : M (Option MKey))
         else match repoFind s.repo name rev with
-          | some src => attempt (parseIn fuel src (some rev))
+          | some src => attemptLoad (s.cfg.loadPropagates && modLatest.isSome) (parseIn fuel src (some rev))
           | none => pure none) >>= fun got => loadFinish rev got modLatest) >>= circularCheck
 end
 
@@ -440,7 +468,8 @@ def hasCompiledImportR : Nat → MKey → M Bool
 
 /-- `mod->implemented = 1; mod->to_compile = 1; ly_set_add(&unres->implementing, mod)` -/
 def markImpl (k : MKey) (s : Ctx) : Ctx :=
-  { (s.upd k fun x => { x with implemented := true, toCompile := true }) with implementing := s.implementing ++ [k] }
+  tick (if s.cfg.countsImplement then 1 else 0)
+    { (s.upd k fun x => { x with implemented := true, toCompile := true }) with implementing := s.implementing ++ [k] }
 
 /-- one augment / deviation statement: mark the target, return the modules to look at -/
 def markTarget (k : MKey) (isAug : Bool) (modSet : List MKey) (tname : Bytes) : M (List MKey) := do
@@ -655,6 +684,14 @@ def compileChecked (k : MKey) : M Unit := do
       failS rc
     | none => compileOne k
 
+/-- `if (!mod->compiled) lys_compile(mod)` in `lys_compile_expr_implement`; the module joins the work list of the round -/
+def compileIfNot (st : Bool × List MKey) (k : MKey) : M (Bool × List MKey) := do
+  let s ← getS
+  if ((s.find k).map (·.compiled.isNone)).getD false then do
+    compileChecked k
+    pure (false, st.2 ++ [k])
+  else pure st
+
 /-- `lys_compile_unres_depset_implement`, leafref part, followed by the checks of the unres sets.
     `work` = modules compiled in this round, in order; returns `true` for LY_ERECOMPILE. -/
 def unresLoop : Nat → List MKey → List MKey → M Bool
@@ -687,11 +724,11 @@ def unresLoop : Nat → List MKey → List MKey → M Bool
             | some t => do
               let r ← (if !t.implemented then implement tk none else pure false)
               if r then pure (true, st.2) else do
+                let st1 ← compileIfNot st tk
+                -- the repaired code (F137): also the modules implemented together with `tk` (targets of its augments / deviations)
                 let s' ← getS
-                if ((s'.find tk).map (·.compiled.isNone)).getD false then do
-                  compileChecked tk
-                  pure (false, st.2 ++ [tk])
-                else pure st
+                if s'.cfg.compilesTargets then foldlS (s'.implementing.drop s.implementing.length) st1 compileIfNot
+                else pure st1
     if rec then pure true else unresLoop fuel (rest ++ extra) (done ++ [k])
 
 /-- `lys_compile_depset_r` -/
@@ -745,10 +782,42 @@ def removeCreated (s : Ctx) : Ctx :=
   { s with mods := s.mods.filter (fun m => !s.creating.contains m.key),
            depSets := s.depSets.map (fun ds => ds.filter (fun k => !s.creating.contains k)) }
 
+/-- is revision `a` newer than `b` (a module without revision is older than any other) -/
+def newerRev (a b : Bytes) : Bool := !a.isEmpty && (b.isEmpty || bytesLt b a)
+
+/-- the newest revision of module `name` in `l`, as the loop in `lys_unres_glob_revert` finds it -/
+def newestRev (l : List Mod) (name : Bytes) : Option MKey :=
+  ((l.filter (·.src.name == name)).foldl (fun (best : Option Mod) m => match best with
+    | none => some m
+    | some b => if newerRev m.src.rev b.src.rev then some m else some b) none).map (·.key)
+
+/-- repaired code (F130): a module that holds LYS_MOD_LATEST_REV is removed — the newest remaining revision is the latest one
+    again.  (The C does it module by module; a flag handed to a module that is removed later is handed on, so the outcome is:
+    for every name of which a removed module held the flag, the newest module that stays.)  `removed`: the created modules. -/
+def restoreLatest (removed : List Mod) (s : Ctx) : Ctx :=
+  let names := (removed.filter (·.latest.rev)).map (·.src.name)
+  { s with mods := s.mods.map fun m =>
+      if names.contains m.src.name && newestRev s.mods m.src.name == some m.key then { m with latest := { m.latest with rev := true } }
+      else m }
+
+/-- the modules `m` imports without revision-date, as far as the imports were resolved -/
+def Mod.datelessTargets (m : Mod) : List MKey := ((m.src.imports.zip m.impRes).filter (·.1.2.isEmpty)).map (·.2)
+
+/-- repaired code (F132): LYS_MOD_IMPORTED_REV is cleared everywhere and set again from the imports of the modules that stay -/
+def recomputeImported (s : Ctx) : Ctx :=
+  { s with mods := s.mods.map fun m =>
+      { m with latest := { m.latest with imp := s.mods.any fun x => x.datelessTargets.contains m.key } } }
+
+/-- what the repaired `lys_unres_glob_revert` does to `latest_revision` while / after it removes the created modules
+    (`s1`: before the removal, `s2`: after it) -/
+def fixLatest (s1 s2 : Ctx) : Ctx :=
+  let s3 := if s1.cfg.restoreLatest then restoreLatest (s1.mods.filter fun m => s1.creating.contains m.key) s2 else s2
+  if s1.cfg.recomputeImported then recomputeImported s3 else s3
+
 /-- `lys_unres_glob_revert` -/
 def revert (s : Ctx) : Ctx :=
   let s1 := s.implementing.foldl unimplement s
-  let s2 := removeCreated s1
+  let s2 := fixLatest s1 (removeCreated s1)
   if s.implementing.isEmpty then s2 else (compileAll s2).2
 
 /-- `lys_unres_glob_erase` -/
@@ -847,10 +916,21 @@ def hashPartsG (reset : Bool) : List Mod → Nat → List Bytes
 /-- as the code does it now (`hashFiReset` is read from context.c on every run) -/
 def hashParts (l : List Mod) (fi : Nat) : List Bytes := hashPartsG Generated.CtxFacts.hashFiReset l fi
 
-def Ctx.modulesHashG (reset : Bool) (s : Ctx) : BitVec 32 :=
-  Jenkins.multi ((hashPartsG reset s.mods 0).foldl Jenkins.multi 0) []
+/-- the internal modules as the hash sees them: name, revision, implemented (none of them has a feature; the model's
+    histories never implement one of them) -/
+def internalHashMods : List Mod :=
+  Generated.CtxFacts.internalModules.map fun x =>
+    { src := { name := x.1.toUTF8.toList, rev := x.2.1.toUTF8.toList, ns := [], hasData := false, hasGrp := false, feats := [], subs := [],
+               imports := [], augments := [], deviations := [], lrefs := [], usesGrp := [] },
+      implemented := x.2.2 }
 
-def Ctx.modulesHash (s : Ctx) : BitVec 32 := s.modulesHashG Generated.CtxFacts.hashFiReset
+/-- `skip`: does the loop start behind the internal modules?  (In the tree the findings were recorded on it does, F136.) -/
+def hashedMods (skip : Bool) (s : Ctx) : List Mod := (if skip then [] else internalHashMods) ++ s.mods
+
+def Ctx.modulesHashG (reset skip : Bool) (s : Ctx) : BitVec 32 :=
+  Jenkins.multi ((hashPartsG reset (hashedMods skip s) 0).foldl Jenkins.multi 0) []
+
+def Ctx.modulesHash (s : Ctx) : BitVec 32 := s.modulesHashG Generated.CtxFacts.hashFiReset Generated.CtxFacts.hashSkipsInternal
 
 /-- what the specification of the hash asks for: the iterator restarts for every module -/
 def hashPartsSpec : List Mod → List Bytes
